@@ -265,6 +265,35 @@ class Check:
         sys.exit(0)
 
 
+def race_reports(stderr_path, limit=5):
+    """Data-race / fatal-error reports of a -race child that involve go-ipfix frames."""
+    txt = open(stderr_path, errors="replace").read()
+    evs = []
+    for blk in re.split(r"={18}\n", txt):
+        if "WARNING: DATA RACE" in blk and "github.com/vmware/go-ipfix/pkg/" in blk:
+            funcs = sorted(set(re.findall(r"go-ipfix/pkg/([\w/]+\.\(?\*?\w+\)?\.\w+)", blk)))[:4]
+            evs.append({"e": "Race", "funcs": funcs})
+    m = re.search(r"fatal error: ([\w ]+)", txt)
+    if m:
+        evs.append({"e": "Crash", "detail": m.group(1)})
+    m = re.search(r"^panic: (.*)$", txt, flags=re.M)
+    if m:
+        evs.append({"e": "Crash", "detail": m.group(1)[:200]})
+    return evs[:limit]
+
+
+def append_monitor_events(trace, evs):
+    """Monitor events are appended to the last trace of the file: no specification has an action for them."""
+    if not evs:
+        return
+    lines = open(trace).read().splitlines()
+    tr = json.loads(lines[-1]).get("tr", 1) if lines else 1
+    with open(trace, "a") as f:
+        for e in evs:
+            e = dict(e, tr=tr)
+            f.write(json.dumps(e) + "\n")
+
+
 def _drop(cur, trid):
     a, b = '"tr":%s,' % trid, '"tr":%s}' % trid
     return [x for x in cur if a not in x and b not in x]
